@@ -266,3 +266,95 @@ def serializer_options(ctx, rid, modnames, floor, why):
                         key_extra=ast.unparse(n.func))
     if n_sites < floor:
         raise AnalysisError(f"only {n_sites} cbor2.dump(s) sites found in {modnames} (resolver lost them)")
+
+
+def key_file_rule(ctx, rid, impl, method, name_param="key_name", dir_attr="keys_directory"):
+    """Key material is read from one file per call, <self.keys_directory>/<key name><constant suffix>: the file name is an
+    injective function of the key name (no with_suffix / strip / lower, which map different names to one file) and every read of
+    the call uses the same path (type check and use cannot look at different files; nothing is resolved against the working directory)."""
+    from sa.absint import Evaluator as _Ev
+    R = ctx.report
+    fi = ctx.repo.lookup_method(impl, method)
+    if fi is None:
+        raise AnalysisError(f"{impl.name}.{method} vanished")
+    fq = ctx.fq(fi)
+    ev = _Ev(ctx.repo, inline_depth=1)
+    paths = []
+    for o in ev.outcomes(fi):
+        for e in all_effects(o.effects):
+            for s in subterms(e):
+                if isinstance(s, App) and s.op in ("filebytes", "open", "eff:open") and s.args:
+                    p = s.args[0]
+                    if isinstance(p, App) and p.op == "open":
+                        p = p.args[0]
+                    if p not in paths:
+                        paths.append(p)
+    if not paths:
+        raise AnalysisError(f"{fq}: no key file read recognised")
+    name = Sym("param:" + name_param)
+
+    def file_part_ok(t, under_cond=False):
+        if t == name:
+            return True
+        if isinstance(t, Const):
+            return isinstance(t.v, str)
+        if isinstance(t, App) and t.op == "cat":
+            return all(file_part_ok(x) for x in t.args)
+        if isinstance(t, App) and t.op == "phi":
+            return file_part_ok(t.args[1]) and file_part_ok(t.args[2])  # the condition only selects between constant suffixes
+        return False
+
+    def rooted(p):
+        return isinstance(p, App) and p.op == "/" and len(p.args) == 2 and isinstance(p.args[0], App) and p.args[0].op == "attr:" + dir_attr \
+            and p.args[0].args[0] == Sym("param:self") and contains(p.args[1], lambda s: s == name) and file_part_ok(p.args[1])
+    for p in paths:
+        R.check(rid, rooted(p), f"{fq}: {repr(p)[:90]}", mod=fi.module, node=fi.node, function=fq,
+                expected=f"self.{dir_attr} / ({name_param} + <constant suffix>)", found=repr(p)[:200], key_extra=repr(p)[:80])
+    R.check(rid, len(paths) == 1, f"{fq}: one key file per call", mod=fi.module, node=fi.node, function=fq,
+            expected="every read of the key uses the same path", found=f"{len(paths)} different paths: {[repr(p)[:80] for p in paths]}")
+
+
+def cli_converters(ctx, rid, modname, floor):
+    """argparse `type=` converters of a command module: a numeric option must denote the number the user wrote (int, or int(x, 0)
+    which honours the 0x / 0o / 0b prefix); a fixed other base silently reads the same digits as another number.  The same option
+    of sibling sub-commands must be converted the same way (Engler-style sibling contradiction)."""
+    from sa.index import walk_no_nested
+    R = ctx.report
+    repo = ctx.repo
+    m = repo.mod(modname)
+    R.rule(rid, floor, "type= converters: int / int(x, 0) / str / Path / enum classes; siblings agree")
+    seen = {}
+    n = 0
+    for f in m.functions.values():
+        for c in walk_no_nested(f.node):
+            if not (isinstance(c, ast.Call) and isinstance(c.func, ast.Attribute) and c.func.attr == "add_argument"):
+                continue
+            flags = [a.value for a in c.args if isinstance(a, ast.Constant) and isinstance(a.value, str)]
+            tk = next((k.value for k in c.keywords if k.arg == "type"), None)
+            if tk is None or not flags:
+                continue
+            n += 1
+            ok, found = False, ast.unparse(tk)
+            if isinstance(tk, (ast.Name, ast.Attribute)):
+                r = repo.resolve_expr(m, tk)
+                ok = bool(r) and ((r[0] == "builtin" and r[1] in ("int", "str", "float")) or (r[0] == "ext" and r[1] in ("pathlib.Path", "int", "str"))
+                                  or r[0] == "class")
+            elif isinstance(tk, ast.Lambda) and len(tk.args.args) == 1:
+                x = tk.args.args[0].arg
+                b = tk.body
+                if isinstance(b, ast.Call) and isinstance(b.func, ast.Name) and b.func.id == "int" and b.args and isinstance(b.args[0], ast.Name) \
+                        and b.args[0].id == x and not b.keywords:
+                    base = b.args[1] if len(b.args) > 1 else None
+                    ok = base is None or (isinstance(base, ast.Constant) and base.value in (0, 10))
+                    if not ok:
+                        found = f"int(x, {ast.unparse(base)}): the digits the user wrote are read in a fixed other base"
+            R.check(rid, ok, f"{ctx.fq(f)}: {flags[0]}", mod=m, node=c, function=ctx.fq(f), expected="int / lambda x: int(x, 0) / str / Path / enum class",
+                    found=found, key_extra=flags[0])
+            norm = ast.dump(tk)
+            for fl in flags:
+                if fl in seen and seen[fl][0] != norm:
+                    R.fail(rid, f"{ctx.fq(f)}: {fl} converted differently by sibling sub-commands", mod=m, node=c, function=ctx.fq(f),
+                           expected=f"{fl}: {seen[fl][1]} everywhere", found=ast.unparse(tk), key_extra=fl + "|sibling")
+                seen.setdefault(fl, (norm, ast.unparse(tk)))
+    if n < floor:
+        raise AnalysisError(f"{modname}: only {n} add_argument(type=...) sites found")
